@@ -141,7 +141,7 @@ Strip(T, n) == IF n # 0 /\ K(T, n) \in {"E.Parenthesis", "E.Unit"} THEN Strip(T,
 MaybePow2(T, n) ==
     LET m == Strip(T, n) IN
     /\ m # 0
-    /\ \/ K(T, m) = "E.NumberLiteral" /\ (A(T, m).num.pow2 \/ ~A(T, m).num.fits) /\ A(T, m).exp \in {"", "0", "00"}
+    /\ \/ K(T, m) = "E.NumberLiteral" /\ A(T, m).num.pow2 /\ A(T, m).exp \in {"", "0", "00"}   \* (pow2 is exact at any length)
        \/ K(T, m) \in {"E.HexNumberLiteral", "E.RationalNumberLiteral"}
 ShiftMust(T) == {n \in OfKind(T, {"E.Multiply"}) : IsPow2Literal(T, Kid(T, n, "l"), 1, 31) \/ IsPow2Literal(T, Kid(T, n, "r"), 1, 31)}
                 \cup {n \in OfKind(T, {"E.Divide"}) : IsPow2Literal(T, Kid(T, n, "r"), 1, 31)}
